@@ -100,6 +100,8 @@ def histories(ctx):
     rng = ctx.rng
     for item in FC.load_corpus('C14'):
         yield item
+    for item in FC.directed(ctx):
+        yield item
     # exhaustive small scope: all orderings of responses / timer fires / executor runs with up to 3 attempts in flight
     if ctx.tier == 'quick':
         scopes = [(QUICK_KINDS, [100, 100], 12, False, 4000)]
@@ -146,6 +148,7 @@ def run(ctx):
     for cfg, ops, punctual, source in histories(ctx):
         b.add(cfg, ops, punctual, source, nontrivial)
     b.compare()
+    FC.explore_races(ctx, 'C14')
 
 
 def replay(ctx, rp):
